@@ -55,13 +55,21 @@ def step_for(scheme, host, tok, shape):
     return {"spec": spec, "tok": tok, "mode": "read_all"}
 
 
+def plans_for(case):
+    plans = {"v0": {"framing": "chunked", "chunks": [4], "body_len": 12, "h2_frames": [5]}}
+    if case["context"] == "sibling-first":
+        # the sibling's answer comes in several DATA frames / chunks, so that parts of it can be read by different flows of control
+        plans["s1"] = {"framing": "chunked", "chunks": [300], "body_len": 1500, "h2_frames": [300]}
+    return plans
+
+
 def build(case):
     kind, ctx, shape = case["kind"], case["context"], case["shape"]
     maxc = case.get("max_connections") or (1 if ctx in ("queued-other", "pool-timeout") else 2)
     extra = {"max_connections": maxc}
     if case.get("retries"):
         extra["retries"] = case["retries"]
-    plans = {"v0": {"framing": "chunked", "chunks": [4], "body_len": 12, "h2_frames": [5]}}
+    plans = plans_for(case)
     if ctx == "reader-first":
         # HTTP/2 only: an older stream is blocked reading (its answer comes only after the victim's request has arrived), so that what the server
         # says during the victim's upload is read by ANOTHER flow of control
@@ -221,7 +229,7 @@ def run_case(case, record_sites=False):
     from ..trio_run import make_run
 
     run = make_run(case.get("runtime"))(world, pool_cfg, callers, choices=case.get("choices", ()), segs=case.get("segs", ()), epilogue=epilogue,
-                                               policy=case.get("policy"), bursts=case.get("bursts", ()), late=case.get("late", ()))
+                                               policy=case.get("policy"), bursts=case.get("bursts", ()), late=case.get("late", ()), dsegs=case.get("dsegs", ()))
     run.scheme = scheme
     run.record_sites = record_sites
     run.result = {}
